@@ -257,6 +257,67 @@ def use_const():
     return _NAME
 
 
+def _evens(xs, kind=int):
+    return [x for x in xs if isinstance(x, kind) and x % 2 == 0]
+
+
+def _scaled(xs, by=(2, 3)):
+    return [x * by[0] + by[1] for x in xs]
+
+
+def use_filter_loop(xs):
+    out = []
+    for x in _evens(xs):
+        out.append(_log(x))
+    return out
+
+
+def use_filter_loop_tmp(xs):
+    out = []
+    sel = [x for x in xs if x > 1]
+    for v in sel:
+        if v == 9:
+            continue
+        out.append(_log(v))
+    else:
+        out.append("done")
+    return out
+
+
+def use_proj_loop(xs):
+    out = []
+    x = 100
+    for y in _scaled(xs):
+        out.append(y + x)
+        if y > 20:
+            break
+    return out, x
+
+
+def use_genexp_loop(xs):
+    out = []
+    for v in (_log(x) for x in xs if x != 3):
+        out.append(v)
+    return out
+
+
+def use_display_loop(a, b):
+    out = []
+    for v in [a, b, a + b]:
+        out.append(_log(v) * 2)
+    for w in (a,):
+        out.append(w)
+    return out
+
+
+def use_display_loop_rebind(a, b):
+    out = []
+    for v in [a, b]:
+        b = b + 1
+        out.append(v + b)
+    return out
+
+
 class K:
     def __init__(self, n):
         self.n = n
@@ -295,6 +356,16 @@ class K:
 
     def ret(self, by):
         return self._bump(by)
+
+    @property
+    def _odd_items(self):
+        return [i for i in range(self.n) if i % 2]
+
+    def prop(self, by):
+        out = []
+        for i in self._odd_items:
+            out.append(i + by)
+        return out, self._odd_items
 '''
 
 
@@ -333,13 +404,14 @@ def main():
     lists = [[], [1], [2, 3], [1, 3, 5], [4, 6, 9, 12], [5, 4, 3, 2, 1], [-2, 7, -1, 0], [0, 2, 9]]
     cases = []
     for x, y in itertools.product(ints, ints):
-        for f in ("use_pred", "use_pair", "use_pair_attr", "use_reassign", "use_reassign_ret", "use_tuple_assign", "use_bounds", "use_reassign_dead", "use_reassign_loop"):
+        for f in ("use_display_loop", "use_display_loop_rebind", "use_pred", "use_pair", "use_pair_attr", "use_reassign", "use_reassign_ret", "use_tuple_assign", "use_bounds", "use_reassign_dead", "use_reassign_loop"):
             cases.append((f, (x, y)))
     for x in ints:
         for f in ("use_clip", "use_clip_ret", "use_mutate", "use_order", "use_chain", "use_ifexp", "use_while", "use_displays"):
             cases.append((f, (x,)))
     for xs in lists:
-        for f in ("use_first_even", "use_aug", "use_enum", "use_list_yield_from"):
+        for f in ("use_first_even", "use_aug", "use_enum", "use_list_yield_from", "use_filter_loop", "use_filter_loop_tmp",
+                  "use_proj_loop", "use_genexp_loop"):
             cases.append((f, (xs,)))
         for f in ("use_two_yields",):
             cases.append((f, (xs,)))
@@ -359,7 +431,7 @@ def main():
             print("MISMATCH", f, args, ra, rb)
     for n in (0, 3, 6, 9):
         for by in (0, 1, 4):
-            for meth in ("run", "ret"):
+            for meth in ("run", "ret", "prop"):
                 ra = repr(getattr(a.K(n), meth)(by))
                 rb = repr(getattr(b.K(n), meth)(by))
                 if ra != rb:
